@@ -17,6 +17,7 @@ S->C:  TLC enumerates EVERY string up to the bound over the abstract alphabets a
 """
 from __future__ import annotations
 
+import gc
 import json
 import os
 import random
@@ -106,6 +107,16 @@ def _python_via_linter(text: str, ctx: Dict[str, Any]):
     return "render", rf.templated_variants[0].templated_str, {}
 
 
+def _pmap(fn, chunks):
+    """pmap after gc.freeze(): the forked workers' collector does not walk (and so copy) the parent's records."""
+    gc.collect()
+    gc.freeze()
+    try:
+        return pmap(fn, chunks, chunksize=1)
+    finally:
+        gc.unfreeze()
+
+
 def _thin(vs: List[dict], seen: Dict[str, int]) -> List[dict]:
     """Keep the replay payload for the first few violations of a signature per chunk (the rest only count)."""
     for v in vs:
@@ -170,10 +181,11 @@ def run_python(rep: Report, tier: str, seed: int, futures) -> None:
             raise MachineryError(f"Render(py) emitted {len(got)} distinct strings over {alphabet} <= {n}, expected {expected}")
         for k, r in got.items():
             recs.setdefault(k, r)
+        m.stdout, m.records = "", []
     items = sorted(recs.values(), key=lambda r: (len(r["s"]), r["s"]))
     indexed = list(enumerate(items))
     chunks = [(indexed[i:i + 2000], seed, maxlen + 1) for i in range(0, len(indexed), 2000)]
-    for vs, n, nt in pmap(_py_chunk, chunks, chunksize=1):
+    for vs, n, nt in _pmap(_py_chunk, chunks):
         rep.evaluated(n)
         for idx in nt:
             rep.nontrivial(idx)
@@ -250,10 +262,11 @@ def run_placeholder(rep: Report, tier: str, seed: int, future) -> None:
     recs = {(r["style"], tuple(r["s"])): r for r in m.records if "style" in r}
     if len(recs) != m.distinct - len(R.PH_STYLES):
         raise MachineryError(f"Render(ph) emitted {len(recs)} strings for {m.distinct} states")
+    m.stdout, m.records = "", []
     items = sorted(recs.values(), key=lambda r: (r["style"], len(r["s"]), r["s"]))
     indexed = list(enumerate(items))
     chunks = [(indexed[i:i + 4000], seed) for i in range(0, len(indexed), 4000)]
-    for vs, n, nt in pmap(_ph_chunk, chunks, chunksize=1):
+    for vs, n, nt in _pmap(_ph_chunk, chunks):
         rep.evaluated(n)
         for k in nt:
             rep.nontrivial(k)
@@ -340,7 +353,7 @@ def run_long(rep: Report, tier: str, seed: int) -> None:
     cases = list(enumerate(gen_long(seed, 1500 if tier == "quick" else 12000)))
     chunks = [cases[i:i + 250] for i in range(0, len(cases), 250)]
     impl, twin, meta = [], [], {}
-    for part in pmap(_long_chunk, chunks, chunksize=1):
+    for part in _pmap(_long_chunk, chunks):
         for a, b, mt in part:
             impl.append(a)
             twin.append(b)
